@@ -103,8 +103,8 @@ def check(run, repo):
         ok = True
         why = ''
         for attr, objs, vals in (('reactants', R_, rs), ('products', P_, ps), ('transition_state', T_, ts)):
-            got_o = back.attrs.get('_' + attr)
-            got_s = back.attrs.get('_%s_stoich' % attr)
+            got_o = get_public(I, back, attr)
+            got_s = get_public(I, back, attr + '_stoich')
             if not vals:
                 if got_o is not None:
                     ok, why = False, '%s should be absent, got %s' % (attr, show(got_o, 60))
